@@ -100,6 +100,13 @@ type Explorer struct {
 	interp    *interpreter
 	steps     int
 	violated  bool
+	// C08 monitors: cells and maps reachable from the shared (frozen) roots, pooled objects
+	freezeOn   bool
+	frozen     map[*value]bool
+	frozenMaps map[uintptr]bool
+	pooledObjs map[*value]bool
+	monitored  map[string]bool
+	flags      int
 	MaxViolPerLabel int
 	MaxSamples      int
 }
@@ -119,6 +126,9 @@ func (e *Explorer) resetPath() {
 	e.inconcl = false
 	e.steps = 0
 	e.violated = false
+	e.freezeOn = false
+	e.flags = 0
+	e.frozen, e.frozenMaps, e.pooledObjs, e.monitored = nil, nil, map[*value]bool{}, map[string]bool{}
 }
 
 func (e *Explorer) declare(name, sort string) string {
